@@ -41,7 +41,7 @@ CHECKS = {
                 note=TB + "; blank lines in the file are ignored"),
     "C08": dict(level="model_checking", ref="3 C08",
                 tech="TLC trace validation of all well-formed conditional structures against the conditional stack of Assembler.tla",
-                text="Every well-formed nesting structure (if / elif* / else? / endif, nesting <= 3) up to 7 lines (thorough 9), instantiated with all-true, all-false and seeded truth assignments over literal, .equ and .define conditions, with marker instructions, messages, garbage text, .define and label definitions in the branches; TLC's reference (stack with taken flag) must give the same image, messages and error status; conditions with negative and huge values and the '#' spelling of the directives included. MC_Cond model-checks the reference itself for all well-formed programs up to 6 (thorough 8) lines: the stack machine selects exactly the lines a declarative, stack-free reading of the property selects, filtering preserves the result, and the reader without a taken flag (the implementation before its fix) violates it.",
+                text="Every well-formed nesting structure (if / elif* / else? / endif, nesting <= 3) up to 7 lines (thorough 9), instantiated with all-true, all-false and seeded truth assignments over literal, .equ and .define conditions, with marker instructions, messages, garbage text, .define and label definitions in the branches; TLC's reference (stack with taken flag) must give the same image, messages and error status; conditions with negative and huge values and the '#' spelling of the directives included. MC_Cond model-checks the reference itself for all well-formed programs up to 6 (thorough 7) lines: the stack machine selects exactly the lines a declarative, stack-free reading of the property selects, filtering preserves the result, and the reader without a taken flag (the implementation before its fix) violates it.",
                 note=TB + "; ill-formed chains not generated"),
     "C09": dict(level="model_checking", ref="3 C09",
                 tech="TLC trace validation of macro programs against the syntax-tree substitution of Assembler.tla",
